@@ -269,7 +269,7 @@ fn gen_tagged_enum(rng: &mut Rng, cx: &mut Ctx) -> Value {
     let mut vnames: Vec<&str> = ENUM_VALUES.to_vec();
     rng.shuffle(&mut vnames);
     vnames.truncate(nv);
-    let style = rng.below(4);
+    let style = rng.below(5);
     let mut variants = Vec::new();
     match style {
         0 => {
@@ -326,6 +326,31 @@ fn gen_tagged_enum(rng: &mut Rng, cx: &mut Ctx) -> Value {
                     "additionalProperties": false
                 }));
             }
+        }
+        4 => {
+            // anyOf of object branches that declare the same property names and
+            // are told apart by constant-valued properties: some constants are
+            // equal in every branch, at least one differs (exclusivity analysis)
+            let n_const = rng.range(2, 3);
+            let const_names = ["kind", "type", "flag"];
+            let differing = rng.below(n_const);
+            let mut branches = Vec::new();
+            for (vi, v) in vnames.iter().enumerate() {
+                let mut props = Map::new();
+                let mut req = Vec::new();
+                for (ci, cn) in const_names.iter().take(n_const).enumerate() {
+                    let val = if ci == differing || rng.chance(1, 4) { format!("{v}{ci}") } else { format!("same{ci}") };
+                    let _ = vi;
+                    props.insert(cn.to_string(), json!({"type": "string", "enum": [val]}));
+                    req.push(json!(cn));
+                }
+                props.insert("size".to_string(), json!({"type": "integer"}));
+                branches.push(json!({"type": "object", "properties": props, "required": req}));
+            }
+            if rng.chance(1, 2) {
+                branches.push(json!({"type": "string"}));
+            }
+            return json!({ "anyOf": branches });
         }
         _ => {
             // untagged: alternatives of distinct JSON types
@@ -612,7 +637,7 @@ fn add_defaults(rng: &mut Rng, sw: &Swarm, schema: &mut Value, defs: &Defs, top:
             }
         }
     }
-    if top && rng.chance(1, 6) && !o.contains_key("$ref") && !o.contains_key("oneOf") {
+    if top && rng.chance(1, 6) && !o.contains_key("$ref") && !o.contains_key("oneOf") && !o.contains_key("anyOf") {
         let me = Value::Object(o.clone());
         let invalid = sw.defaults == 2 && rng.chance(1, 4);
         let v = if invalid {
